@@ -62,9 +62,9 @@ ENGINES["storesim"] = {
 
 ENGINES["kvsim"] = {
     "serves": ["C12"],
-    "kind": "single-goroutine event loop over 2-3 real key-value stores with a simulated push network, pull exchanges over the real diff wire adapters, byzantine values and failing storage writes",
-    "real_vs_stub": {"real": ["keyvaluestorage (Set, SetRaw, Iterate)", "innerstorage (LWW upsert, diff maintenance and rollback)", "app/ldiff", "keyvalue.NewRemoteDiff / HandleRangeRequest", "acl list (full validation)", "headstorage, spacestorage, any-store"],
-                     "stub": ["push transport: harness SyncClient, messages cross as marshalled StoreKeyValues", "pull element exchange: the harness replays the message flow of keyValueService.syncWithPeer / HandleStoreElementsRequest (same messages, order and batching) without a DRPC stream",
+    "kind": "event loop over 2-3 real key-value services (each with its store) with a simulated push network, sync exchanges run by the real services over a harness drpc connection, byzantine values and failing storage writes",
+    "real_vs_stub": {"real": ["keyvalue service (SyncWithPeer / syncWithPeer, HandleStoreDiffRequest, HandleStoreElementsRequest, request limiter)", "keyvaluestorage (Set, SetRaw, Iterate) with syncstorage client", "innerstorage (LWW upsert, diff maintenance and rollback)", "app/ldiff", "keyvalue.NewRemoteDiff / HandleRangeRequest", "spacesyncproto drpc client", "acl list (full validation)", "headstorage, spacestorage, any-store"],
+                     "stub": ["push transport: harness sync service (BroadcastMessage), messages cross as marshalled StoreKeyValues", "drpc connection between two services: Invoke and NewStream end in the other service's handlers, every message crosses as bytes, the rpc layer's routing read of the first stream message is replayed, the stream from the server can break after k messages",
                               "faultstore for failing writes", "indexer = no-op"]},
 }
 
@@ -238,17 +238,17 @@ PROPS = {
     "C12": {
         "engine": "kvsim",
         "level": "exploration",
-        "budget": {"quick": 60, "thorough": 900},
+        "budget": {"quick": 90, "thorough": 900},
         "rule": "one run = 2-3 stores (own any-store, own device key, accounts owner/writer with several devices) over a scripted ACL (writer and a later-removed member added, reader added, member removed with rotation), 10-70 events: local Set on 1-3 keys (fake clock advanced so timestamps differ), pushed batches delivered in any order / dropped / duplicated, "
-                "pull exchanges (CompareDiff over the real wire adapters, values streamed newest first, applied in batches of 1-3, stream break after k values), byzantine or unusual values pushed to a node (any device signing for its account citing any record; relabelled slot; foreign account signature; swapped signatures; byte edited after signing; unknown ACL record; valid value of a writer's second device with a skewed clock; removed member), "
+                "sync exchanges run by the real services (SyncWithPeer over a harness connection into the peer's HandleStoreDiffRequest / HandleStoreElementsRequest; the stream from the server may break after k messages), byzantine or unusual values pushed to a node (any device signing for its account citing any record; relabelled slot; foreign account signature; swapped signatures; byte edited after signing; unknown ACL record; valid value of a writer's second device with a skewed clock; removed member), "
                 "and - in 30% of runs - one node on a faultstore whose local and remote writes fail at a seeded storage call. 25% of runs keep some nodes behind on the ACL (safety only). "
                 "Oracles after every event on the touched node: stored contents = reference model (per slot the valid value with the greatest timestamp received; validity = both signatures over exactly the stored bytes, slot = key + '-' + signing device named inside them, signer a writer at the cited and locally known ACL record per the harness's own timeline); "
-                "every stored value itself satisfies the validity predicate; index entries = {(slot, timestamp)}, advertised hash = hash of a fresh index over them, head-storage entry = that hash - also right after failed writes. After heal (all delivered, one sync per ordered pair) all stores hold equal contents and hashes. evaluations = node checks.",
+                "every stored value itself satisfies the validity predicate; index entries = {(slot, timestamp)}, advertised hash = hash of a fresh index over them, head-storage entry = that hash - also right after failed writes. after one complete (unbroken, fault-free) exchange between two nodes that know the whole ACL their stored contents are equal; a rare big-store scenario (257-396 values on one node) makes range answers carry elements for several ranges. After heal (all delivered, one sync per ordered pair) all stores hold equal contents and hashes. evaluations = node checks.",
         "assumptions": COMMON_ASSUMPTIONS + ["all nodes share one fake clock (per-device skew only through crafted values)", "equal timestamps in one slot: the value received first stays (the code's documented >= rule)",
                                              "convergence is asserted only in runs where every node holds the whole ACL"],
         "technique": "deterministic simulation: seeded delivery orders, groupings, repetitions, pull exchanges with stream breaks, byzantine values and failing writes over real stores; reference-model oracle (LWW over valid values), validity predicate on stored values, index = contents invariant, convergence after heal",
         "level_text": "Seeded exploration of arrival orders, batchings, duplications, broken pulls, byzantine values and storage faults; after every event the store, its advertised index and the recorded hash are compared with a reference model built from the property text.",
-        "level_note": "real key-value storage stack; network and the DRPC stream of the pull are harness stubs replaying the service's message flow",
+        "level_note": "real key-value service and storage stack; the push network and the drpc connection are harness stubs",
         "expected_probes": [],
     },
     "C14": {
